@@ -158,6 +158,159 @@ func runSched(sc *SchedCase) (violation string) {
 	return ""
 }
 
+// ReadSchedCase is a reader-vs-sweep schedule: under an access-reset policy a reader samples the clock
+// while the entry is alive and is parked before it publishes the extended deadline; the clock moves
+// past the old deadline and maintenance runs; the reader is released at a chosen point of that run
+// (before it, when the drain begins, or when the sweep has decided to expire a node and is about to
+// remove it). Whatever the sweep does with the entry, a CleanUp more than a tick after the extended
+// deadline must find it removed and reported.
+type ReadSchedCase struct {
+	Engine  string `json:"engine"`
+	Seed    uint64 `json:"seed"`
+	Index   int    `json:"index"`
+	Origin  int64  `json:"origin"`
+	TTL     int64  `json:"ttl"`
+	Before  int64  `json:"read_before_deadline"` // the read samples the clock this long before the deadline
+	Past    int64  `json:"sweep_past_deadline"`  // maintenance runs this long after the old deadline
+	Later   int64  `json:"later"`                // judging CleanUp this long after the extended deadline
+	Release int    `json:"release_at"`           // 0 before CleanUp, 1 drain.enter, 2 evictNode.enter
+	Others  int    `json:"other_entries"`
+	Bound   int    `json:"maximum_size"`
+	Reader  int    `json:"read_kind"` // 0 GetIfPresent 1 GetEntry 2 Compute(cancel) 3 SetIfAbsent(present)
+}
+
+var schedSites = sync.OnceValue(func() map[string]int {
+	m := map[string]int{}
+	for i, n := range otter.VerifSiteNames() {
+		m[n] = i
+	}
+	return m
+})
+
+func runReadSched(sc *ReadSchedCase) (violation string) {
+	clk := &parkClock{parked: make(chan struct{}, 1), resume: make(chan struct{}), tick: make(chan time.Time)}
+	clk.now.Store(sc.Origin)
+	var mu sync.Mutex
+	var events []otter.DeletionEvent[int, int]
+	o := &otter.Options[int, int]{
+		Clock:            clk,
+		ExpiryCalculator: otter.ExpiryAccessing[int, int](time.Duration(sc.TTL)),
+		Executor:         func(fn func()) { fn() },
+		OnDeletion: func(e otter.DeletionEvent[int, int]) {
+			mu.Lock()
+			events = append(events, e)
+			mu.Unlock()
+		},
+	}
+	if sc.Bound > 0 {
+		o.MaximumSize = sc.Bound
+	}
+	c, err := otter.New(o)
+	if err != nil {
+		return "cannot build: " + err.Error()
+	}
+	defer c.StopAllGoroutines()
+	const k, v = 7, 4242
+	c.Set(k, v)
+	c.CleanUp()
+	t1 := sc.Origin + sc.TTL - sc.Before
+	clk.now.Store(t1)
+	for i := 0; i < sc.Others; i++ {
+		c.Set(100+i, i)
+	}
+	done := make(chan struct{})
+	clk.park.Store(true)
+	go func() {
+		defer close(done)
+		switch sc.Reader {
+		case 0:
+			c.GetIfPresent(k)
+		case 1:
+			c.GetEntry(k)
+		case 2:
+			c.Compute(k, func(old int, found bool) (int, otter.ComputeOp) { return 0, otter.CancelOp })
+		default:
+			c.SetIfAbsent(k, 1)
+		}
+	}()
+	select {
+	case <-clk.parked:
+	case <-time.After(10 * time.Second):
+		return "inconclusive: the reader never sampled the clock"
+	}
+	// the reader holds t1 (the entry is alive then); maintenance runs after the old deadline
+	t2 := sc.Origin + sc.TTL + sc.Past
+	clk.now.Store(t2)
+	released := false
+	release := func() {
+		if released {
+			return
+		}
+		released = true
+		close(clk.resume)
+		select {
+		case <-done:
+		case <-time.After(180 * time.Second):
+		}
+	}
+	site := -1
+	switch sc.Release {
+	case 1:
+		site = schedSites()["drain.enter"]
+	case 2:
+		site = schedSites()["evictNode.enter"]
+	}
+	if site < 0 {
+		release()
+	} else {
+		otter.VerifSetHook(func(s int) {
+			if s == site {
+				release()
+			}
+		})
+	}
+	c.CleanUp()
+	otter.VerifSetHook(nil)
+	release()
+	select {
+	case <-done:
+	default:
+		return "the parked read did not return"
+	}
+	extended := t1 + sc.TTL // if the read was applied; otherwise the old deadline - both lie before the judging time
+	t3 := extended + sc.Later
+	clk.now.Store(t3)
+	c.CleanUp()
+	c.CleanUp()
+	if _, ok := c.GetEntryQuietly(k); ok {
+		return fmt.Sprintf("the entry (deadline %d, extended to %d by a read that raced with the sweep at %d) is visible at %d", sc.Origin+sc.TTL, extended, t2, t3)
+	}
+	want := 0
+	for i := 0; i < sc.Others; i++ {
+		if _, ok := c.GetEntryQuietly(100 + i); ok {
+			want++
+		}
+	}
+	mu.Lock()
+	reports := 0
+	var cause otter.DeletionCause
+	for _, e := range events {
+		if e.Key == k && e.Value == v && (e.Cause == otter.CauseExpiration || e.Cause == otter.CauseOverflow) {
+			reports++
+			cause = e.Cause
+		}
+	}
+	mu.Unlock()
+	if reports == 1 && cause == otter.CauseOverflow && sc.Bound == 0 {
+		return fmt.Sprintf("the entry (deadline %d, extended to %d by a read that raced with the sweep at %d, released at site %d) was removed with cause Overflow in a cache without a size bound: no Expiration event was delivered for it", sc.Origin+sc.TTL, extended, t2, sc.Release)
+	}
+	if n := c.EstimatedSize(); n != want || reports != 1 {
+		return fmt.Sprintf("CleanUp at %d, more than a tick after both the old deadline %d and the deadline %d extended by a read that raced with the sweep at %d (released at site %d): the entry is still counted (EstimatedSize %d, %d live entries) or not reported exactly once (%d reports)",
+			t3, sc.Origin+sc.TTL, extended, t2, sc.Release, n, want, reports)
+	}
+	return ""
+}
+
 // ExtendCase is a deadline-extension scenario: many entries get their deadline extended (by an
 // explicit override or by access-reset reads); the read events that would re-file their timers are
 // buffered lossily, so some are dropped, and the sweep itself must re-file such timers. The clock
@@ -324,6 +477,64 @@ func RunExtend(col *core.Collector, tier string, seed uint64, shard, nshards int
 			}
 		}
 	}
+}
+
+// RunReadSched runs the reader-vs-sweep schedules of C13.
+func RunReadSched(col *core.Collector, tier string, seed uint64, shard, nshards int, replayDir string) {
+	n := 1200
+	if tier == "thorough" {
+		n = 50000
+	}
+	for i := shard; i < n; i += nshards {
+		r := core.NewRng(core.Derive(seed, core.StrLabel("C13readsched"), uint64(i)))
+		sc := &ReadSchedCase{Engine: "readsched", Seed: seed, Index: i}
+		sc.Origin = []int64{1_000_000_000, 1_790_000_000_000_000_000 + r.Int63()%1_000_000_000_000}[r.Intn(2)]
+		sc.TTL = int64(8+r.Intn(300)) * 1_000_000_000
+		sc.Before = 1 + r.Int63()%2_000_000_000
+		sc.Past = []int64{1, tickNanos / 2, tickNanos + 1, 3 * tickNanos}[r.Intn(4)] + r.Int63()%1000
+		sc.Later = tickNanos*int64(2+r.Intn(100)) + 1
+		sc.Release = r.Intn(3)
+		sc.Others = r.Intn(4)
+		sc.Reader = r.Intn(4)
+		if r.Chance(1, 3) {
+			sc.Bound = 10 + r.Intn(100)
+		}
+		v := runReadSched(sc)
+		col.Eval(1)
+		col.Count(fmt.Sprintf("read_schedule.release_at_%d", sc.Release), 1)
+		if len(v) > 12 && v[:12] == "inconclusive" {
+			col.Inconclusive(v)
+			continue
+		}
+		col.NonTrivial(core.HashJSON(sc))
+		if v != "" {
+			path := filepath.Join(replayDir, fmt.Sprintf("C13-readsched-%x.json", core.HashJSON(sc)))
+			data, _ := json.MarshalIndent(map[string]any{"readsched_case": sc, "violation": v}, "", " ")
+			os.WriteFile(path, data, 0o644)
+			col.Violation(core.Violation{Property: "C13", Signature: "readsched:" + sigOf(v), Detail: v + fmt.Sprintf(" (schedule %+v)", *sc), Replay: path})
+			if col.NumViolations() >= 5 {
+				break
+			}
+		}
+	}
+}
+
+// ReplayReadSched re-executes a reader-vs-sweep schedule from a replay file.
+func ReplayReadSched(col *core.Collector, data []byte, path string) error {
+	var w struct {
+		Case ReadSchedCase `json:"readsched_case"`
+	}
+	if err := json.Unmarshal(data, &w); err != nil {
+		return err
+	}
+	v := runReadSched(&w.Case)
+	col.Eval(1)
+	fmt.Printf("schedule %+v\n", w.Case)
+	if v != "" {
+		fmt.Println("violation:", v)
+		col.Violation(core.Violation{Property: "C13", Signature: "readsched:" + sigOf(v), Detail: v, Replay: path})
+	}
+	return nil
 }
 
 // ReplaySched re-executes a schedule from a replay file.
